@@ -131,7 +131,7 @@ func (streamSelf *StreamDef[T]) Append(item ...T) *StreamDef[T] {
 func (streamSelf *StreamDef[T]) Remove(index int) *StreamDef[T] {
 	var result StreamDef[T]
 	if index >= 0 && index < streamSelf.Len() {
-		result = append((*streamSelf)[:index], (*streamSelf)[index+1:]...)
+		result = append(append(result, (*streamSelf)[:index]...), (*streamSelf)[index+1:]...)
 	} else {
 		return streamSelf
 	}
